@@ -59,6 +59,7 @@ def main():
     rc, out = sh("git -C %s apply %s 2>&1 || (git -C %s apply --3way %s 2>&1 && git -C %s reset -q HEAD)" % (REPO, patch, REPO, patch, REPO))
     if rc != 0:
         res["repo_apply_failed"] = out[-500:]
+        sh("git -C %s reset -q --hard HEAD" % REPO)        # (a conflicted 3-way apply leaves unmerged paths that `checkout -- .` does not undo; /repo was clean before)
     else:
         try:
             for pid in [a.pid] + [x for x in a.also.split(",") if x]:
@@ -77,7 +78,7 @@ def main():
                             pass
                 res.setdefault("checks", {})[pid] = r
         finally:
-            sh("git -C %s reset -q HEAD; git -C %s checkout -- ." % (REPO, REPO))
+            sh("git -C %s reset -q --hard HEAD" % REPO)
     # --- 3. archive
     dst = os.path.join(VERIF, "seeded", "%s-%s" % (a.pid, a.var))
     os.makedirs(dst, exist_ok=True)
